@@ -1028,7 +1028,7 @@ func NewUnaryOrNumber(op UnaryOperator, node Node) Node {
 				return node
 			case UnaryMinus:
 				// Just a negative number, return it with the minus sign.
-				return NewNumeric("-" + node.literal)
+				return NewNumeric(negateLiteral(node.literal))
 			default:
 				panic(fmt.Sprintf("Operator must be + or - but is %v", op))
 			}
@@ -1039,7 +1039,7 @@ func NewUnaryOrNumber(op UnaryOperator, node Node) Node {
 				return node
 			case UnaryMinus:
 				// Just a negative number, return it with the minus sign.
-				return NewInteger("-" + node.literal)
+				return NewInteger(negateLiteral(node.literal))
 			default:
 				panic(fmt.Sprintf("Operator must be + or - but is %v", op))
 			}
@@ -1047,4 +1047,13 @@ func NewUnaryOrNumber(op UnaryOperator, node Node) Node {
 	}
 
 	return NewUnary(op, node)
+}
+
+// negateLiteral returns the literal of the negated number: it removes a
+// leading minus sign instead of adding a second one.
+func negateLiteral(literal string) string {
+	if strings.HasPrefix(literal, "-") {
+		return literal[1:]
+	}
+	return "-" + literal
 }
